@@ -271,7 +271,9 @@ func paBaseEnv() *paEnv {
 // setupIBC writes an open transfer channel (channel-0 over connection-0 over a
 // tendermint light client of a fictitious counterparty) and its capabilities.
 // Nothing is relayed: MsgTransfer only needs the sending side.
-func (e *paEnv) setupIBC() (err error) {
+func (e *paEnv) setupIBC() error { return setupIBCChannel(e.Env) }
+
+func setupIBCChannel(e *Env) (err error) {
 	defer func() {
 		if r := recover(); r != nil {
 			err = fmt.Errorf("ibc setup: %v", r)
